@@ -87,6 +87,12 @@ def check(tier: str) -> Report:
                      lambda o, p: o["ret"] == p["ret"], rng,
                      n_walks=3000 if tier == "quick" else 30000)
     rand = [random_history(rng, 40) for _ in range(1500 if tier == "quick" else 20000)]
+    # a large budget spent in bulk: hundreds of grants age out between two operations
+    big_cfg = {"max": 700, "W": 4}
+    rb = RealBudget(big_cfg)
+    big_ops = [("consume", 700, 0), ("remaining", 0, 1), ("consume", 1, 1), ("remaining", 0, 10),
+               ("consume", 700, 10), ("consume", 1, 10), ("consume", 650, 14), ("remaining", 0, 14)]
+    rand.append({"cfg": big_cfg, "ev": [rb.do({"op": o, "cost": c, "t": t})[0] for o, c, t in big_ops]})
     allt = g["mismatches"] + rand
     verdicts = tlc_validate("BudgetTrace", allt, "bud")
     # canary: flip one consume result
